@@ -207,6 +207,18 @@ func revIvs(l interval.IntervalList) interval.IntervalList {
 // ---------------------------------------------------------------------------------
 
 func ivalHandler(args []string) (string, []string) {
+	var g guards
+	resp, props := ivalHandler1(args, &g)
+	pid := "C13"
+	if len(args) > 0 && args[0] == "norm" {
+		pid = "C05"
+	} else if len(args) > 0 && args[0] == "inter" {
+		pid = "C04"
+	}
+	return resp, append(props, g.report(pid, "ival "+strings.Join(args, " "))...)
+}
+
+func ivalHandler1(args []string, g *guards) (string, []string) {
 	if len(args) < 2 {
 		return "bad-request", nil
 	}
@@ -217,6 +229,7 @@ func ivalHandler(args []string) (string, []string) {
 		if !ok {
 			return "bad-request", nil
 		}
+		l = spareIvs(g, l)
 		orig := cloneIvs(l)
 		r, err := l.Normalize()
 		if err != nil {
@@ -234,7 +247,7 @@ func ivalHandler(args []string) (string, []string) {
 			if !ok {
 				return "bad-request", nil
 			}
-			lists = append(lists, l)
+			lists = append(lists, spareIvs(g, l))
 		}
 		orig := make([]interval.IntervalList, len(lists))
 		for i, l := range lists {
@@ -268,6 +281,7 @@ func ivalHandler(args []string) (string, []string) {
 		if !ok {
 			return "bad-request", nil
 		}
+		l = spareIvs(g, l)
 		orig := cloneIvs(l)
 		r := l.Humanize()
 		if !equalIvs(orig, l) {
@@ -293,6 +307,7 @@ func ivalHandler(args []string) (string, []string) {
 		if !ok {
 			return "bad-request", nil
 		}
+		l = spareIvs(g, l)
 		return "ok " + showInts64(l.Extract()), nil
 	case "bynum":
 		if len(args) != 3 {
@@ -304,6 +319,7 @@ func ivalHandler(args []string) (string, []string) {
 			return "bad-request", nil
 		}
 		in := append([]int64{}, ns...)
+		ns = spareInts64(g, ns)
 		r := interval.IntervalListByNumList(ns, k)
 		inc := true
 		for i := 1; i < len(in); i++ {
@@ -334,6 +350,7 @@ func ivalHandler(args []string) (string, []string) {
 		if !ok {
 			return "bad-request", nil
 		}
+		l = spareIvs(g, l)
 		s := l.String()
 		if wfL(l) && len(l) > 0 {
 			back, err := interval.ParseIntervalList(s)
